@@ -2,7 +2,8 @@
 
 Pipeline (DESIGN.md 7/C18):
   1. TLC exhaustive on MC_SignedSegment (symbolic chained signatures, FIXED = TRUE): every honest
-     segment of 1..5 entries x every sequence of <= 2 tampers (thorough: 3 on <= 4 entries, two abstract
+     segment of 1..5 entries (and the variant whose last entry is a copy of the first AS entry, signed
+     with try_into_signed_segment) x every sequence of <= 2 tampers (thorough: 3 on <= 4 entries, two abstract
      bits); invariants Sound / OnlyAuthentic / AuthenticOk / PrefixClosed; oracle self-check: the
      pinned-commit lookup (FIXED = FALSE) must violate Sound.  The same run prints, per distinct
      tampered (segment, resolver), the tamper history and the expected verdict of every entry.
@@ -47,6 +48,7 @@ CONSTANTS
   DEPTH = {depth}
   BITS = {bits}
   GEN = {gen}
+  VARIANTS = {variants}
 INVARIANTS Sound OnlyAuthentic AuthenticOk PrefixClosed {extra}
 """
 
@@ -84,7 +86,7 @@ def run_replay_file(c, binp, path):
         write_ndjson(inp, [obj["case"]])
         rc, so = c.sh([binp, "replay", inp, outp])
         res = read_ndjson(outp)[0]
-        print("tampers :", hist_str(obj["case"]["h"]), "on the honest segment of", obj["case"]["n"], "entries")
+        print("tampers :", hist_str(obj["case"]["h"]), "on the honest segment of", obj["case"]["n"], "entries", "(last entry = copy of the first AS entry)" if obj["case"].get("v") else "")
         print("spec    : Valid =", [e["v"] for e in obj["case"]["e"]], " I-layer outcome =", [e["o"] for e in obj["case"]["e"]])
         print("real    :", json.dumps({k: res.get(k) for k in ("conv", "entries", "msg", "rt")}))
         for pv in res.get("pv", []):
@@ -133,7 +135,7 @@ def run(c):
 
     # ---- 1. exhaustive model checking + generation --------------------------------------------
     r0 = c.tlc(SD, "MC_SignedSegment", cfg=cfg(c, "mc_unfixed.cfg", MC_TMPL.format(
-        fixed="FALSE", nmax=3, maxn=2, depth=1, bits="{0}", gen="FALSE", extra="")), expect_violation=True, coverage=False)
+        fixed="FALSE", nmax=3, maxn=2, depth=1, bits="{0}", gen="FALSE", variants="{0}", extra="")), expect_violation=True, coverage=False)
     if "Sound" not in r0.violated:
         c.fail_tool("oracle self-check failed: the pinned-commit lookup (FIXED = FALSE) no longer violates Sound in the model")
     runs = [dict(maxn=5, depth=2, bits="{0}")]
@@ -143,7 +145,7 @@ def run(c):
     seen = set()
     for i, k in enumerate(runs):
         r = c.tlc(SD, "MC_SignedSegment", cfg=cfg(c, "mc_%d.cfg" % i, MC_TMPL.format(
-            fixed="TRUE", nmax=5, gen="TRUE", extra="Emit", **k)), timeout=3000)
+            fixed="TRUE", nmax=5, gen="TRUE", variants="{0, 1}", extra="Emit", **k)), timeout=3000)
         for inv in r.violated:
             c.violation("spec:%s" % inv, "design-level: invariant %s violated on MC_SignedSegment (%s); see %s" % (inv, k, r.out_path), {"tlc_out": r.out_path})
         if r.ok:
